@@ -1273,4 +1273,39 @@ theorem filterMap_fst_sublist {β : Type} (f : Name → Option (Name × β))
       simp only [List.filterMap_cons, h, List.map_cons, this]
       exact ih.cons₂ x
 
+/-! ## histories with redefinitions: only the order of the forms of ONE class matters -/
+
+theorem foldl_update_congr (c : Name) : ∀ (l : List (Name × ClassDef)) (D1 D2 : Name → Option ClassDef),
+    D1 c = D2 c →
+    (l.foldl (fun D p => update D p.1 p.2) D1) c = (l.foldl (fun D p => update D p.1 p.2) D2) c
+  | [], _, _, h => h
+  | p :: l, D1, D2, h => by
+    simp only [List.foldl_cons]
+    apply foldl_update_congr c l
+    by_cases hc : c = p.1
+    · simp [update, hc]
+    · simp [update, hc, h]
+
+theorem foldl_update_filter (c : Name) : ∀ (l : List (Name × ClassDef)) (D : Name → Option ClassDef),
+    (l.foldl (fun D p => update D p.1 p.2) D) c =
+      ((l.filter (fun p => p.1 = c)).foldl (fun D p => update D p.1 p.2) D) c
+  | [], _ => rfl
+  | p :: l, D => by
+    by_cases hc : p.1 = c
+    · simp only [List.foldl_cons, List.filter_cons, hc, decide_true, if_true]
+      exact foldl_update_filter c l _
+    · simp only [List.foldl_cons, List.filter_cons, hc, decide_false]
+      rw [foldl_update_filter c l]
+      apply foldl_update_congr
+      have : ¬ c = p.1 := fun e => hc e.symm
+      simp [update, this]
+
+/-- the definitions in force depend, for every class, only on the sequence of that class's own forms -/
+theorem lastDef_eq_of_filter (h1 h2 : List (Name × ClassDef))
+    (hf : ∀ c, h1.filter (fun p => p.1 = c) = h2.filter (fun p => p.1 = c)) :
+    lastDef h1 = lastDef h2 := by
+  funext c
+  unfold lastDef
+  rw [foldl_update_filter c h1, foldl_update_filter c h2, hf c]
+
 end SlipVerif.Clos
